@@ -2,7 +2,7 @@
 from __future__ import annotations
 import ast
 from ..api import A, spec, call
-from ..terms import Evaluator, Poly, Rec, Cond, Opq, Comp, Closure, tkey, paths_of, term_equal, has_opaque, compare_terms, as_poly
+from ..terms import _is_callable_term, Evaluator, Poly, Rec, Cond, Opq, Comp, Closure, tkey, paths_of, term_equal, has_opaque, compare_terms, as_poly
 from ..report import AnalysisError
 from . import translate as T
 from .solutions import class_of, new_ev, init_self, method_term, OPAQUE_CIRCUIT, CS
@@ -125,7 +125,7 @@ def time_domain(rep, prog):
     rep.ob('R09.time', 'solutions-in-frequency-order', ok if ok is not None else (None), f'_solutions = {sols!r:.260}', site)
     for q in ('voltage', 'current', 'potential'):
         t, st = method_term(prog, ev, m, cls, f'get_{q}', [A('id')])
-        val = ev.apply(t, [A('t')], {}, m, 1) if isinstance(t, Closure) else None
+        val = ev.apply(t, [A('t')], {}, m, 1) if _is_callable_term(t) else None
         okf = None
         why = ''
         # any filter on the way from the spectral lines to the sum drops lines (a tolerance test such as isclose(X, 0) loses small signals)
